@@ -374,7 +374,7 @@ def merge_render_with_git(b, l, r, strategy=None):
 
     # Remove trailing newline if ">>>>>>> remote" is the last line
     lines = merged.splitlines(True)
-    if "\n" in lines[-1] and (">"*7) in lines[-1]:
+    if lines and "\n" in lines[-1] and (">"*7) in lines[-1]:
         merged = merged.rstrip()
     return merged, status
 
@@ -396,11 +396,18 @@ def merge_render(b, l, r, strategy=None, config=DefaultConfig):
     if strategy == "use-base":
         return b, 0
     if config.use_git and which('git'):
-        return merge_render_with_git(b, l, r, strategy)
+        merged, status = merge_render_with_git(b, l, r, strategy)
+        # git merge-file: number of conflicts (at most 127), else an error
+        if 0 <= status <= 127:
+            return merged, status
     elif config.use_diff and which('diff3'):
-        return merge_render_with_diff3(b, l, r, strategy)
-    else:
-        return builtin_merge_render(b, l, r, strategy)
+        merged, status = merge_render_with_diff3(b, l, r, strategy)
+        # diff3: 0 is a clean merge, 1 conflicts, 2 trouble
+        if status in (0, 1):
+            return merged, status
+    # No tool, or the tool refused the input (e.g. as binary): its output
+    # is not a merge result
+    return builtin_merge_render(b, l, r, strategy)
 
 
 def file_timestamp(filename):
